@@ -129,6 +129,22 @@ def catalogue():
             add(f"Frustum(radius vector lean) f{fr}", lean, exp, lambda rp=rp, fr=fr: cb.Frustum(P(fr, [0, 0, 0]), P(fr, [0, 0, 1.5]), P(fr, rp), 0.4))
             add(f"ExtrudedRing(radius vector lean) f{fr}", lean, exp, lambda rp=rp, fr=fr: cb.ExtrudedRing(P(fr, [0, 0, 0]), P(fr, [0, 0, 1.5]), P(fr, rp), 0.3))
             add(f"Annulus(radius vector lean) f{fr}", lean, exp, lambda rp=rp, fr=fr: Annulus(P(fr, [0, 0, 0]), P(fr, rp), V(fr, [0, 0, 1]), 0.3))
+    # the same leans on models 1000 times smaller and larger (a 1 mm pipe written in metres): lean given relative to the size
+    for size in (1e-3, 1e3):
+        for lean, exp in ((0.0, "in"), (0.05, "out"), (-0.05, "out"), (0.5, "out"), (-0.5, "out")):
+            rp = [0.7 * size, 0.0, lean * size]
+            top = [0, 0, 1.5 * size]
+            add(f"Cylinder(radius vector lean) size {size}", lean, exp, lambda rp=rp, top=top: cb.Cylinder([0, 0, 0], top, rp))
+            add(f"SemiCylinder(radius vector lean) size {size}", lean, exp, lambda rp=rp, top=top: cb.SemiCylinder([0, 0, 0], top, rp))
+            add(f"Frustum(radius vector lean) size {size}", lean, exp, lambda rp=rp, top=top, size=size: cb.Frustum([0, 0, 0], top, rp, 0.4 * size))
+            add(f"ExtrudedRing(radius vector lean) size {size}", lean, exp, lambda rp=rp, top=top, size=size: cb.ExtrudedRing([0, 0, 0], top, rp, 0.3 * size))
+    for c, exp in ((-4, "out"), (-1, "out"), (0, "in"), (3, "in"), (4, "out")):
+
+        def rm(c=c):
+            f = cb.Face(quad, [cb.Arc([0.5, -0.2, 0]), cb.Arc([1.2, 0.5, 0]), cb.Arc([0.5, 1.2, 0]), cb.Arc([-0.2, 0.5, 0])])
+            f.remove_edges([c])
+
+        add("Face.remove_edges(corner)", c, exp, rm)
 
     # --- chain lengths
     def cyl():
